@@ -3,6 +3,8 @@ package main
 import (
 	"fmt"
 
+	"github.com/cosmos/cosmos-sdk/types/bech32"
+
 	"github.com/circlefin/noble-cctp/x/cctp/types"
 )
 
@@ -115,7 +117,16 @@ func genRolesMatrix(g *Gen, n int) {
 	}
 }
 
-var badAddrs = []string{"", "garbage", "cosmos1qqqqqq", "noble1qv9pzxqlyckngw6zf9g9whn9d3eh4qvg3u3gv759"}
+var badAddrs = []string{"", "garbage", "cosmos1qqqqqq", "noble1qv9pzxqlyckngw6zf9g9whn9d3eh4qvg3u3gv759",
+	mustBech32("cosmos", []byte{}), mustBech32("cosmos", make([]byte, 256)), mustBech32("cosmos", make([]byte, 255)), mustBech32("cosmos", []byte{7})}
+
+func mustBech32(hrp string, data []byte) string {
+	s, err := bech32.ConvertAndEncode(hrp, data)
+	if err != nil {
+		panic(err)
+	}
+	return s
+}
 
 // roles-lifecycle (C11): random walks over the five role transactions by three accounts with
 // valid, malformed, wrong-prefix, empty and upper-case new holders, interleaved with one
